@@ -516,7 +516,13 @@ func (x *Run) havocSliceRoot(fr *Frame, st *State, v ssa.Value) {
 			}
 			if cur, ok := fr.env[v]; ok && cur.T != "" && cur.S == x.d.sortOf(v.Type()) {
 				fresh := x.freshVal(st, "buf", v.Type())
-				fr.env[v] = Val{T: x.mkSlice(cur.S, x.sliceArr(fresh), x.sliceLen(cur)), S: cur.S, Ty: cur.Ty}
+				nv := Val{T: x.mkSlice(cur.S, x.sliceArr(fresh), x.sliceLen(cur)), S: cur.S, Ty: cur.Ty}
+				fr.env[v] = nv
+				for k, named := range fr.names {
+					if named.T == cur.T && named.S == cur.S && !strings.HasSuffix(k, "@entry") {
+						fr.names[k] = nv
+					}
+				}
 			}
 			if sl, ok := v.(*ssa.Slice); ok {
 				v = sl.X
